@@ -20,6 +20,7 @@ import (
 	"github.com/GuanceCloud/platypus/pkg/inimpl/guancecloud/funcs"
 	"github.com/antchfx/xmlquery"
 	"github.com/antchfx/xpath"
+	"github.com/araddon/dateparse"
 	conv "github.com/spf13/cast"
 )
 
@@ -250,13 +251,9 @@ func answer(q string) (res string) {
 			}
 			loc = l
 		}
-		// the documented house layouts (fn.md / handle.go descriptions), tried directly with Go's
-		// time package when the zone needs no table (default or named zone)
-		if tz == "" || named {
-			l := time.Local
-			if named {
-				l = loc
-			}
+		// the documented house layouts (fn.md / handle.go descriptions), then the general parser, asked
+		// directly when the zone needs no table (default or named zone)
+		direct := func(val string, l *time.Location) (int64, error) {
 			for _, hl := range []struct {
 				f    string
 				year bool
@@ -266,24 +263,42 @@ func answer(q string) (res string) {
 				if hl.year {
 					v = fmt.Sprintf("%s %d", val, time.Now().Year())
 				}
-				if tm, perr := time.ParseInLocation(hl.f, v, l); perr == nil && tm.UnixNano() > 0 {
-					return okHex(strconv.FormatInt(tm.UnixNano(), 10))
+				if tm, perr := time.ParseInLocation(hl.f, v, l); perr == nil {
+					return tm.UnixNano(), nil
 				}
 			}
+			tm, perr := dateparse.ParseIn(val, l)
+			if perr != nil {
+				return 0, perr
+			}
+			return tm.UnixNano(), nil
 		}
+		if tz == "" || named {
+			l := time.Local
+			if named {
+				l = loc
+			}
+			n, err := direct(val, l)
+			if err != nil {
+				return "err:" + hex.EncodeToString([]byte(err.Error()))
+			}
+			if named {
+				// a spelling without a zone of its own (its value moves with the zone argument) denotes that
+				// wall-clock time in the named zone: recompute it from the zone-less reading
+				tokyo, _ := time.LoadLocation("Asia/Tokyo")
+				n0, e0 := direct(val, time.Local)
+				nT, eT := direct(val, tokyo)
+				if tokyo != nil && e0 == nil && eT == nil && n0 != nT {
+					w := time.Unix(0, n0).In(time.Local)
+					n = time.Date(w.Year(), w.Month(), w.Day(), w.Hour(), w.Minute(), w.Second(), w.Nanosecond(), loc).UnixNano()
+				}
+			}
+			return okHex(strconv.FormatInt(n, 10))
+		}
+		// a numeric offset goes through the repository's zone table
 		n, err := funcs.TimestampHandle(val, tz)
 		if err != nil {
 			return "err:" + hex.EncodeToString([]byte(err.Error()))
-		}
-		if named {
-			// a spelling without a zone of its own (its value moves with the zone argument) denotes that
-			// wall-clock time in the named zone: recompute it from the zone-less reading
-			n0, e0 := funcs.TimestampHandle(val, "")
-			nT, eT := funcs.TimestampHandle(val, "Asia/Tokyo")
-			if e0 == nil && eT == nil && n0 != nT {
-				w := time.Unix(0, n0).In(time.Local)
-				n = time.Date(w.Year(), w.Month(), w.Day(), w.Hour(), w.Minute(), w.Second(), w.Nanosecond(), loc).UnixNano()
-			}
 		}
 		return okHex(strconv.FormatInt(n, 10))
 	case "xml":
